@@ -38,6 +38,7 @@ const fakeGoScript = `#!/bin/sh
 # optionally only its first $FAKE_CUT bytes, then exits with $FAKE_EXIT or kills itself.
 if [ -n "$FAKE_CUT" ]; then head -c "$FAKE_CUT" "$FAKE_LISTING"; else cat "$FAKE_LISTING"; fi
 if [ "$FAKE_KILL" = "self" ]; then kill -9 $$; fi
+if [ "$FAKE_KILL" = "parent" ]; then sleep 0.05; kill -9 $PPID; fi
 exit ${FAKE_EXIT:-0}
 `
 
